@@ -145,9 +145,11 @@ func run(ci any, r *mon.Rec) {
 		return d
 	}
 	want := map[string]modbus.Field{}
+	mult := map[string]int{} // how often the very same definition was given (a multiset: each occurrence is a field of its own)
 	for _, f := range fields {
 		if fieldgen.Valid(f) && !fieldgen.IsCoil(f) {
 			want[f.Name] = f
+			mult[f.Name]++
 		}
 	}
 	seen := map[string]int{}
@@ -269,7 +271,7 @@ func run(ci any, r *mon.Rec) {
 				}
 			}
 			for nme, k := range names {
-				if k > 1 {
+				if k > mult[nme] {
 					r.Violate(c, "field-duplicated", mon.Attrs{"mode": mode}, fmt.Sprintf("field %s reported %d times in request %d", nme, k, qi))
 				}
 			}
@@ -277,10 +279,10 @@ func run(ci any, r *mon.Rec) {
 	}
 	for name, f := range want {
 		switch k := seen[name]; {
-		case k == 0:
-			r.Violate(c, "field-missing", mon.Attrs{}, fmt.Sprintf("field %+v never reported (%d requests)", f, len(reqs)))
-		case k > 1:
-			r.Violate(c, "field-duplicated", mon.Attrs{"mode": "across-requests"}, fmt.Sprintf("field %+v reported %d times", f, k))
+		case k < mult[name]:
+			r.Violate(c, "field-missing", mon.Attrs{"given_more_than_once": mult[name] > 1}, fmt.Sprintf("field %+v given %d time(s), reported %d time(s) (%d requests)", f, mult[name], k, len(reqs)))
+		case k > mult[name]:
+			r.Violate(c, "field-duplicated", mon.Attrs{"mode": "across-requests"}, fmt.Sprintf("field %+v given %d time(s), reported %d times", f, mult[name], k))
 		}
 	}
 	h := mon.Mix(uint64(c.Target), uint64(c.Short))
